@@ -100,6 +100,15 @@ def units(tier, seed):
     # objective undefined (NaN) on part of the box
     for k2, eng in enumerate([e for e in shapes_h1() + shapes_h2() if not any(v.startswith("CMA") or v == "LOC" for v in e)][::2]):
         descs.append(dict(engines=list(eng), gens=2 + k2 % 2, obj=("nanhalf", "nanhole")[k2 % 2], Mh=3, seed=s + k2 % 3, sprout={"kind": "simple", "L": 2}, maximize=bool(k2 % 2), pop=(6, 10)[k2 % 2]))
+    # boundary values of the DE control parameters (crossover probability 0 and 1, scaling 0 and 1); user-assembled SEA engines
+    for k4, eng in enumerate([("DE",), ("DEd",), ("SEA", "DE"), ("DE", "DEd"), ("LHS", "DEd", "DE")]):
+        for cr, sc in ((1.0, 0.8), (0.0, 0.8), (0.9, 1.0), (1.0, 0.0)):
+            descs.append(dict(engines=list(eng), gens=2 + k4 % 2, obj=("sphere_in", "twofunnel")[k4 % 2], Mh=3, seed=s + k4, sprout={"kind": "simple", "L": 2}, maximize=bool(k4 % 2),
+                              de_crossover=cr, de_scaling=sc))
+    for k5, eng in enumerate([("UEAm",), ("UEA3", "DE"), ("SEA", "UEAi"), ("UEAi", "UEAm", "UEA3")]):
+        for gens in (1, 3):
+            descs.append(dict(engines=list(eng), gens=gens, obj=("sphere_in", "plateau")[k5 % 2], Mh=3, seed=s + k5, sprout={"kind": ("simple", "nbc")[k5 % 2], "L": 2}, maximize=bool(k5 % 2),
+                              pmut=(1.0, 0.5)[k5 % 2]))
     us = [{"kind": "run", "descs": c} for c in chunks(descs, 30)]
     rsh = rep_shapes() if tier == "quick" else rep_shapes() + [list(e) for e in shapes_h2()[::3]]
     for k, eng in enumerate(rsh):
